@@ -82,6 +82,8 @@ type Sched struct {
 	shadow   map[unsafe.Pointer]*shadow
 	syncVC   map[unsafe.Pointer]*VC
 	ptrOrd   map[unsafe.Pointer]int
+	multi    bool      // a second thread has been started (before that nothing can race or interleave)
+	enBuf    []*thread
 	hbSum    [2]uint64 // commutative hash of executed events (thread, index, clock)
 	noteHash uint64    // order-dependent hash of harness-visible events
 	Switches int       // number of times control moved between threads
@@ -245,7 +247,7 @@ func (s *Sched) schedule(t *thread, exited *thread) {
 			th.relVC = stepper.vc.copy()
 		}
 	}
-	var enabled []*thread
+	enabled := s.enBuf[:0]
 	if t != nil && (t.pred == nil || t.pred()) {
 		enabled = append(enabled, t)
 	}
@@ -257,6 +259,7 @@ func (s *Sched) schedule(t *thread, exited *thread) {
 			enabled = append(enabled, th)
 		}
 	}
+	s.enBuf = enabled
 	if len(enabled) == 0 {
 		// end of execution or deadlock
 		var stuck []string
@@ -274,9 +277,12 @@ func (s *Sched) schedule(t *thread, exited *thread) {
 	idx := 0
 	if len(enabled) > 1 {
 		idx = s.nextChoice(len(enabled), KindSched)
-		tids := make([]int, len(enabled))
-		for i, th := range enabled {
-			tids[i] = th.id
+		var tids []int
+		if s.TraceOn {
+			tids = make([]int, len(enabled))
+			for i, th := range enabled {
+				tids[i] = th.id
+			}
 		}
 		op := ""
 		if t != nil {
@@ -320,6 +326,16 @@ func (s *Sched) finishFrom(t *thread) {
 // operation that is enabled iff pred() (nil = always).
 func (s *Sched) point(op string, pred func() bool) {
 	t := s.running
+	if !s.multi && (pred == nil || pred()) {
+		// single-threaded prefix: nothing to choose, nothing to order
+		s.Steps++
+		t.ran++
+		if s.Steps > s.Horizon {
+			s.HitHor = true
+			s.finishFrom(t)
+		}
+		return
+	}
 	s.addEvent(t)
 	t.pred = pred
 	t.op = op
@@ -340,7 +356,7 @@ func Yield(what string) {
 	if s == nil || s.aborting {
 		return
 	}
-	s.point("yield:"+what, nil)
+	s.point(what, nil)
 }
 
 // Go starts f as a new logical thread.
@@ -351,6 +367,7 @@ func Go(f func()) *Handle {
 		return &Handle{}
 	}
 	parent := s.running
+	s.multi = true
 	t := s.newThread("go", parent)
 	s.start(t, f)
 	s.point("go", nil)
